@@ -463,3 +463,18 @@ mod inventory_tests {
         }
     }
 }
+
+#[cfg(reclass_rs_verif)]
+impl Inventory {
+    /// Verification hook: the three maps.
+    #[must_use]
+    pub fn verif_parts(
+        &self,
+    ) -> (
+        &HashMap<String, Vec<String>>,
+        &HashMap<String, Vec<String>>,
+        &HashMap<String, NodeInfo>,
+    ) {
+        (&self.applications, &self.classes, &self.nodes)
+    }
+}
